@@ -441,6 +441,13 @@ class FnTrans:
             raise Unsupported("%s: cast kind %s" % (self.name, ck))
         if k == "CXXConstructExpr" and len(inner) == 1:
             return self.expr(inner[0], env)         # copy construction of a value type
+        if k == "CXXConstructExpr" and len(inner) == 2 and inner[1].get("kind") == "CXXDefaultArgExpr":
+            q_ = n["type"]["qualType"].replace("const ", "").strip()
+            sc_ = self.job.get("sized_ctors", {}).get(q_)
+            if sc_ is None: raise Unsupported("%s: construction of %s from one argument" % (self.name, q_))
+            t_, ty_, p_ = self.expr(inner[0], env)
+            if ty_ != "Nat": raise Unsupported("%s: size argument of type %s" % (self.name, ty_))
+            return sc_[0].format(t_), sc_[1], p_
         if k == "CXXConstructExpr" and not inner:
             cls_ = n["type"]["qualType"].replace("const ", "").split("::")[-1].strip()
             dc_ = self.job.get("default_ctors", {}).get(cls_)
@@ -841,6 +848,20 @@ class FnTrans:
         if me.get("kind") != "MemberExpr" or me.get("name") != "push_back" or len(inner) != 2: return None
         return me["inner"][0], inner[1]
 
+    def is_state_call(self, n):
+        """(callee FnTrans, argument nodes) of a statement `f(args)` where f is an already translated void function with in/out parameters"""
+        if n.get("kind") != "CallExpr": return None
+        inner = [c for c in n.get("inner", []) if isinstance(c, dict)]
+        callee = inner[0]
+        while callee.get("kind") in ("ImplicitCastExpr", "ParenExpr"): callee = callee["inner"][0]
+        if callee.get("kind") != "DeclRefExpr": return None
+        cands = [g for g in self.known.values() if g.decl.get("name") == callee["referencedDecl"]["name"] and g.frag_stmt is None]
+        cands = [g for g in cands if len([p_ for p_ in g.params if p_[0] != "this"]) == len(inner) - 1]
+        if len(cands) != 1: return None
+        g = cands[0]
+        if g.ret_type is not None or not any(p_[3] == "state" for p_ in g.params): return None
+        return g, inner[1:]
+
     def is_state_method(self, n):
         """(object variable, spec, argument nodes) of a statement `obj.m(args)` whose method the job declares as an uninterpreted
         state transformer of `obj` (job["state_methods"][m] = dict(fn=…, skip_args=[…], extra_vars=[…]))"""
@@ -866,6 +887,12 @@ class FnTrans:
             if lp: acc.add(lp[0])
         sm_ = self.is_state_method(n)
         if sm_ is not None: acc.add(sm_[0])
+        sc_ = self.is_state_call(n) if getattr(self, "known", None) is not None else None
+        if sc_ is not None:
+            for (pc, pl, pt, pk), a_ in zip(sc_[0].params, sc_[1]):
+                if pk == "state":
+                    lp = self.lvalue_path(a_)
+                    if lp: acc.add(lp[0])
         if k == "UnaryOperator" and n.get("opcode") in ("++", "--"):
             t = n["inner"][0]
             while t.get("kind") in ("ParenExpr",): t = t["inner"][0]
@@ -1107,6 +1134,44 @@ class FnTrans:
             v, pp = nxt(env)
             head = "let %s : %s := %s\n%s" % (ln, ty, t, pad)
             return head + v, head + (("(%s) &&\n%s" % (p, pad)) if p else "") + pp
+        sc_ = self.is_state_call(s)
+        if sc_ is not None:
+            g, args_ = sc_
+            ats, pres, backs = [], [], []
+            for (pc, pl, pt, pk), a_ in zip(g.params, args_):
+                t_, ty_, p_ = self.expr(a_, env)
+                if ty_ != pt: raise Unsupported("%s: argument %s for parameter %s of %s" % (self.name, ty_, pt, g.name))
+                ats.append(t_); pres.append(p_)
+                if pk == "state":
+                    if self.lvalue_path(a_) is None: raise Unsupported("%s: in/out argument of %s is not an lvalue" % (self.name, g.name))
+                    backs.append((a_, pt))
+                elif pk == "out": raise Unsupported("%s: call with out-pointer parameters" % self.name)
+            xs_ = [l_ for l_, t_ in g.job.get("extra_params", {}).get(g.name, [])]
+            mine = [l_ for l_, t_ in self.job.get("extra_params", {}).get(self.name, [])]
+            if any(x_ not in mine for x_ in xs_): raise Unsupported("%s: %s needs the extra parameters %s" % (self.name, g.name, xs_))
+            ats += xs_
+            if getattr(g, "uses_fuel", False):
+                ats.append("fuel_"); self.uses_fuel = True
+            call_ = "(%s %s)" % (g.name, " ".join(ats))
+            pre_ = self.conj(*pres, "%s_pre %s" % (g.name, " ".join(ats)))
+            rv = self.fresh("ret")
+            rty = " × ".join(b_[1] for b_ in backs)
+            head = "let %s : %s := %s\n%s" % (rv, rty, call_, pad)
+            phead = "(%s) &&\n%s" % (pre_, pad) + head
+            cur = rv
+            for i_, (a_, pt) in enumerate(backs):
+                comp = cur if len(backs) == 1 else (cur + (".1" if i_ < len(backs) - 1 else ""))
+                lp = self.lvalue_path(a_)
+                if lp[1]:
+                    env, h_, p_ = self.assign_to(a_, comp, pt, env, pad)
+                else:
+                    env = dict(env); ln = self.fresh(lp[0]); env[lp[0]] = dict(lean=ln, type=pt)
+                    h_, p_ = "let %s : %s := %s\n%s" % (ln, pt, comp, pad), None
+                head += h_
+                phead += (("(%s) &&\n%s" % (p_, pad)) if p_ else "") + h_
+                cur = cur + ".2"
+            v, pp = nxt(env)
+            return head + v, phead + pp
         sm_ = self.is_state_method(s)
         if sm_ is not None:
             on_, spec_, args_ = sm_
@@ -1530,6 +1595,7 @@ class FnTrans:
         self.nloops += 1
         hname = "%s_body%d" % (self.name, self.nloops)
         xp_ = list(self.job.get("extra_params", {}).get(self.name, []))
+        if "fuel_" in bv: xp_.append(("fuel_", "Nat"))          # the body calls a function that runs a while loop on fuel
         fixed_sig = "".join("(%s : %s) " % (l, t) for _, l, t in fixed) + "".join("(%s : %s) " % (l, t) for l, t in xp_)
         fixed_args = "".join(" " + l for _, l, t in fixed) + "".join(" " + l for l, t in xp_)
         self.helpers.append(
@@ -1641,6 +1707,7 @@ class FnTrans:
         self.nloops += 1
         hname = "%s_body%d" % (self.name, self.nloops)
         xp_ = list(self.job.get("extra_params", {}).get(self.name, []))
+        if "fuel_" in bv: xp_.append(("fuel_", "Nat"))          # the body calls a function that runs a while loop on fuel
         fixed_sig = "".join("(%s : %s) " % (l, t) for _, l, t in fixed) + "".join("(%s : %s) " % (l, t) for l, t in xp_)
         fixed_args = "".join(" " + l for _, l, t in fixed) + "".join(" " + l for l, t in xp_)
         self.helpers.append(
